@@ -547,8 +547,9 @@ def run_history(plan, ref_results, pre_bytes, stats):
             stats['probes']['nothing_to_resume_from_yet'] += 1
             return None  # no checkpoint was ever completed: nothing is promised, nothing to resume
         fname, data = rec
-        stats['probes']['recovered_from_' + ('output' if fname == out_p else 'backup')] += 1
-        resume_info = {'resumed_from': 'output' if fname == out_p else 'backup',
+        stats['probes']['recovered_from_' + ('output' if fname == out_p else ('backup' if fname == bak_p
+                                                                              else 'other_file'))] += 1
+        resume_info = {'resumed_from': 'output' if fname == out_p else ('backup' if fname == bak_p else 'other'),
                        'both_files_at_resume': (out_p in world.fs.files and bak_p in world.fs.files)}
         if data['finished_run']:
             final = data
